@@ -352,6 +352,9 @@ class Sched:
         self.scope = tuple(scope)
         self.threads: list[CT] = []
         self.back = _Sem(0)
+        self.done = _Sem(0)
+        self.prefix = []
+        self.error = None
         self.by_ident = {}
         self.points: list[Point] = []
         self.now = base_now
@@ -405,8 +408,16 @@ class Sched:
         self.yield_()
 
     def yield_(self):
+        """scheduling point reached by the running actor: decide here (no hand-off to a scheduler thread); only an
+        actual switch costs a context switch"""
         me = self.me()
-        self.back.release()
+        nxt = self._pick(me)
+        if nxt is me:
+            return
+        if nxt is None:
+            self.done.release()      # deadlock / step cap / error: wake the main thread, park for ever
+        else:
+            nxt.go.release()
         me.go.acquire()
 
     def spawn(self, name, fn, is_timer=False):
@@ -428,41 +439,56 @@ class Sched:
             ct.exc = e
         finally:
             ct.finished = True
-            self.back.release()
+            nxt = self._pick(ct)
+            if nxt is None:
+                self.done.release()
+            else:
+                nxt.go.release()
 
     # ---- scheduler side -------------------------------------------------------------------------
+    def _pick(self, cur):
+        """next thread to run (None: nothing left / deadlock / cap); records a decision point when there is a choice"""
+        try:
+            while True:
+                en = [t for t in self.threads if t.enabled()]
+                if not en:
+                    alive = [t for t in self.threads if t.started and not t.finished]
+                    sleepers = [t for t in alive if t.wake_at is not None and t.wake_at > self.now
+                                and (t.blocked_on is None or t.blocked_on._free_for(t))]
+                    if sleepers:
+                        self.now = min(t.wake_at for t in sleepers)
+                        continue
+                    if alive:
+                        self.deadlock = True
+                    return None
+                order = ([cur] if cur in en else []) + [t for t in en if t is not cur]
+                if len(order) > 1:
+                    i = len(self.points)
+                    choice = self.prefix[i] if i < len(self.prefix) else 0
+                    if choice >= len(order):
+                        raise Divergence(f"point {i}: choice {choice} but only {len(order)} enabled")
+                    self.points.append(Point([t.id for t in order], choice, cur in en))
+                else:
+                    choice = 0
+                self.steps += 1
+                if self.steps > self.max_steps:
+                    self.livelock = True
+                    return None
+                self.running = order[choice]
+                return order[choice]
+        except BaseException as e:  # noqa: BLE001
+            self.error = e
+            return None
+
     def run(self, prefix=()):
-        cur = None
-        while True:
-            en = [t for t in self.threads if t.enabled()]
-            if not en:
-                alive = [t for t in self.threads if t.started and not t.finished]
-                sleepers = [t for t in alive if t.wake_at is not None and t.wake_at > self.now
-                            and (t.blocked_on is None or t.blocked_on._free_for(t))]
-                if sleepers:
-                    self.now = min(t.wake_at for t in sleepers)
-                    continue
-                if alive:
-                    self.deadlock = True
-                break
-            order = ([cur] if cur in en else []) + [t for t in en if t is not cur]
-            if len(order) > 1:
-                i = len(self.points)
-                choice = prefix[i] if i < len(prefix) else 0
-                if choice >= len(order):
-                    raise Divergence(f"point {i}: choice {choice} but only {len(order)} enabled")
-                self.points.append(Point([t.id for t in order], choice, cur in en))
-            else:
-                choice = 0
-            t = order[choice]
-            cur = t
-            self.running = t
-            self.steps += 1
-            if self.steps > self.max_steps:
-                self.livelock = True
-                break
-            t.go.release()
-            self.back.acquire()
+        self.prefix = list(prefix)
+        self.error = None
+        nxt = self._pick(None)
+        if nxt is not None:
+            nxt.go.release()
+            self.done.acquire()
+        if self.error is not None:
+            raise self.error
         return self
 
     def choices(self):
